@@ -1050,9 +1050,21 @@ class Envelope:
                 "".join([chr(97 + x) for x in s]) for s in einsum_list_list
             ]
             einsum = f"{einsum_list_str[0]}->{einsum_list_str[1]}"
+            dim = int(jnp.prod(jnp.array([s.dimensions for s in states])))
+            if len(states) == 1:
+                # A part of a pure state is mixed in general: compute the reduced density
+                # matrix (the requested state is first after the reordering above)
+                amplitudes = ps.reshape((dim, -1))
+                reduced = jnp.matmul(amplitudes, jnp.conj(amplitudes.T))
+                reduced = reduced / jnp.trace(reduced)
+                if jnp.abs(jnp.trace(jnp.matmul(reduced, reduced)) - 1) >= 1e-6:
+                    return reduced
+                # Not entangled: read the vector off the most likely configuration
+                norms = jnp.linalg.norm(amplitudes, axis=0)
+                k = int(jnp.argmax(norms))
+                return (amplitudes[:, k] / norms[k]).reshape(dim, 1)
             ps = jnp.einsum(einsum, ps)
 
-            dim = int(jnp.prod(jnp.array([s.dimensions for s in states])))
             return ps.reshape(dim, 1)
 
         if self.expansion_level == ExpansionLevel.Matrix:
